@@ -99,7 +99,11 @@ SPEC = {
     'case_timeout': 90,
     'crash_component': 'C02',
     'classify_crash': classify_crash,
-    'rule': 'hand-written instances first (Tiger; an instance with an impossible observation + duplicate + dominated action; all-negative-reward '
+    'rule': 'round 3 adds: fixed cases 4..9 (horizon 0; tolerances; rewards x 2^20/2^24; a generic non-Eigen model; the Witness non-termination witness; '
+            'the large-magnitude findVerticesNaive/LinearSupport witness) and, per generated case, a second run in one of: horizon 0, rewards x 2^17..2^24, '
+            'tolerance runs (op vftol), generic model, O = 4..6, lopsided shapes (S/A/O = 1), information-gathering instances with many exact ties. '
+            'Exact-mode lines are decided on ALL beliefs by checkExactChain (cover certificates). Round 1-2 rule: '
+            'hand-written instances first (Tiger; an instance with an impossible observation + duplicate + dominated action; all-negative-reward '
             'instances for RTBSS incl. the Lean counterexample; the LinearSupport edge-vertex witness), then seeded random POMDPs (S 1..4, A 1..3, O 1..3, '
             'h 1..3 (4 thorough); deterministic, noisy and partly impossible observations; duplicate, dominated, state-matched and tied rewards; a non-dyadic '
             '"ugly" stream), each solved by IncrementalPruning, Witness, LinearSupport on the dense model (and on the sparse model for a third of the '
@@ -110,10 +114,11 @@ SPEC = {
                  'POMDP/Algorithms/Utils/Projecter.hpp (all)', 'IncrementalPruning::crossSum and operator() (merge schedule as written; Pruner = any envelope-preserving function)',
                  'Witness: vectors as per-observation choices and their variations (LP witness search = hypothesis)',
                  'RTBSS::sampleAction/simulate/upperBound as written, parameterised by the two sites read from the source',
-                 'NOT modelled, outputs checked per instance: Pruner/WitnessLP (lp_solve), LinearSupport agenda + findVerticesNaive, Witness agenda order'],
+                 'src/POMDP/Utils.cpp makeValueFunction, weakBoundDistance; the outer loop of the three solvers (tolerance, horizon, returned variation); LinearSupport acceptance test; Witness row reservation; Witness loop with/without the C02-4 repair',
+                 'NOT modelled, outputs checked per instance: Pruner/WitnessLP (lp_solve), findVerticesNaive QR solve'],
     'assumptions': ['double arithmetic read as exact rational arithmetic; Eigen dense/sparse products read as sums',
                     'tables row-stochastic (harness generates exactly such; driver re-checks), no observation probability in (0, 1e-6] (driver skips otherwise)',
                     'lp_solve and the LP-based pruner are untrusted: only their effect on the returned value function is checked',
-                    'completeness of the belief set (partition vertices + clause (i)) rests on a convexity argument that is not a Lean theorem',
-                    'forall O, scheduleOK O is open: checked by kernel evaluation for O <= 64 and per instance by the driver'],
+                    'exact-mode lines: completeness over all beliefs is decided by checkExactChain (proved sound); non-exact lines (O not a power of 2, non-dyadic stream) still rest on partition vertices + 1e-9',
+                    'Witness runs are killed after 10 s (15 s thorough) and reported as does_not_terminate: the same instance takes IncrementalPruning milliseconds'],
 }
